@@ -426,18 +426,29 @@ impl<T: Sync + Send + 'static> Nucleo<T> {
         } else {
             #[cfg(nucleo_verif)]
             let _verif_blocking = crate::verif::Blocking::new("tick.try_lock");
-            let Some(worker) = self.worker.try_lock_arc_for(Duration::from_millis(timeout)) else {
-                #[cfg(nucleo_verif)]
-                crate::verif::hit("tick.try_lock_failed", 0, [timeout, 0, 0, 0]);
-                self.should_notify.store(true, Ordering::Release);
-                #[cfg(nucleo_verif)]
-                crate::verif::hit("tick.armed", 0, [0, 0, 0, 0]);
-                return Status {
-                    changed: false,
-                    running: true,
-                };
-            };
-            worker
+            match self.worker.try_lock_arc_for(Duration::from_millis(timeout)) {
+                Some(worker) => worker,
+                None => {
+                    #[cfg(nucleo_verif)]
+                    crate::verif::hit("tick.try_lock_failed", 0, [timeout, 0, 0, 0]);
+                    self.should_notify.store(true, Ordering::Release);
+                    #[cfg(nucleo_verif)]
+                    crate::verif::hit("tick.armed", 0, [0, 0, 0, 0]);
+                    // The run looks at the flag only after it has released the lock. If it
+                    // is already past that point it will not notify, but then the lock is
+                    // free now and this tick can pick up the results itself.
+                    std::sync::atomic::fence(std::sync::atomic::Ordering::SeqCst);
+                    match self.worker.try_lock_arc() {
+                        Some(worker) => worker,
+                        None => {
+                            return Status {
+                                changed: false,
+                                running: true,
+                            }
+                        }
+                    }
+                }
+            }
         };
 
         let changed = inner.running;
@@ -485,8 +496,18 @@ impl<T: Sync + Send + 'static> Nucleo<T> {
                 0,
                 [status as u64, cleared as u64, canceled as u64, 0],
             );
-            self.pool
-                .spawn(move || unsafe { inner.run(status, cleared) })
+            let (should_notify, notify) = inner.notifier();
+            self.pool.spawn(move || {
+                let finished = unsafe { inner.run(status, cleared) };
+                // release the lock before looking at the flag: a tick that timed out arms
+                // the flag and then tries the lock once more, so either this load sees the
+                // flag or that tick gets the lock
+                drop(inner);
+                std::sync::atomic::fence(std::sync::atomic::Ordering::SeqCst);
+                if finished && should_notify.load(atomic::Ordering::Relaxed) {
+                    notify()
+                }
+            })
         }
         Status { changed, running }
     }
